@@ -63,7 +63,6 @@ func TestC28Decision(t *testing.T) {
 	s := newSUT()
 	rapid.Check(t, func(t *rapid.T) {
 		c := genCase(t)
-		rec.Excluded(excludeKnown(&c))
 		ref := refDecide(c)
 		rec.Case(nontrivial(c, ref), c.String(), caseLabels(c, ref)...)
 		if rec.WantSample() && ref.MatchedRecord {
@@ -75,9 +74,6 @@ func TestC28Decision(t *testing.T) {
 		got := s.composed(c, req)
 		rec.Label("sut-stage-" + got.Stage)
 		if got.Allow == ref.Allow {
-			return
-		}
-		if isBinXHdrClass(c) && got.Stage != "bearer-verify" && rec.Known(fpBinXHdr) {
 			return
 		}
 		kind := "over-restrictive (reference allows, node denies)"
